@@ -404,6 +404,10 @@ func (c *fctx) bindNew(id *ast.Ident, v val) (string, error) {
 		return "", unsupported(c, id, err.Error())
 	}
 	if v.ptr {
+		if v.sv != nil && !v.sv.readonly {
+			// p := &x with x assignable: later assignments to x would have to show through p
+			return "", unsupported(c, id, "pointer to the assignable variable "+exprText(c.k.tt.p, id)+" kept in a variable")
+		}
 		setReadonly(nv, true)
 	}
 	if id.Obj == nil {
@@ -482,7 +486,12 @@ func (c *fctx) assign(x *ast.AssignStmt) (string, error) {
 		for i, r := range x.Rhs {
 			var err error
 			if isNilIdent(r) {
-				return "", unsupported(c, r, "assignment of nil")
+				// only an error variable can take nil in the subset
+				if lv, lerr := c.expr(x.Lhs[i]); lerr != nil || lv.typ.k != tError || x.Tok != token.ASSIGN {
+					return "", unsupported(c, r, "assignment of nil")
+				}
+				vals[i] = val{typ: typError, coq: "true"}
+				continue
 			}
 			vals[i], err = c.expr(r)
 			if err != nil {
@@ -547,6 +556,38 @@ func (c *fctx) assign(x *ast.AssignStmt) (string, error) {
 
 func (c *fctx) declStmt(x *ast.DeclStmt) (string, error) {
 	gd, ok := x.Decl.(*ast.GenDecl)
+	if ok && gd.Tok == token.CONST {
+		// local constants: the name stands for the (constant) value of its expression
+		for _, sp := range gd.Specs {
+			vs := sp.(*ast.ValueSpec)
+			if len(vs.Values) != len(vs.Names) {
+				return "", unsupported(c, vs, "constant declaration without explicit values")
+			}
+			for i, id := range vs.Names {
+				v, err := c.expr(vs.Values[i])
+				if err != nil {
+					return "", err
+				}
+				if v.cst == nil && v.typ.k != tUntypedBool && !v.isEn {
+					return "", unsupported(c, vs, "local constant "+id.Name)
+				}
+				if vs.Type != nil {
+					t, ptr, err := c.k.tt.resolve(vs.Type)
+					if err != nil || ptr {
+						return "", unsupported(c, vs, "type of the local constant "+id.Name)
+					}
+					if _, ok := unify(v, val{typ: t}); !ok || (v.cst != nil && !fitsType(v.cst, t)) {
+						return "", unsupported(c, vs, "local constant "+id.Name+" does not fit its type")
+					}
+					v.typ = t
+				}
+				if id.Obj != nil {
+					c.consts[id.Obj] = v
+				}
+			}
+		}
+		return "", nil
+	}
 	if !ok || gd.Tok != token.VAR {
 		return "", unsupported(c, x, "local declaration")
 	}
